@@ -20,6 +20,18 @@ CHECKS['C03'] = dict(
     level='proof',
     text='Theorems in Coq over the connection model (every finite program of API calls and received frames, unbounded): the connection send window never goes negative; a DATA frame is emitted only if its flow-controlled length (padding+1 included) fits the stream window, the connection window and MAX_FRAME_SIZE before the call; local_flow_control_window is the minimum; one byte more raises FlowControlError and leaves the whole state untouched; complete characterisation of which operations change the connection window (footprint lemmas for every handler). The two send_data comparisons are extracted from connection.py on every run; the model is compared step by step with the real H2Connection on result / output / flow-control state, and an independent wire-history window oracle runs on the implementation traces.',
     design='7.C03', technique='Coq invariant by induction over operation histories + extracted guards + differential correspondence')
+CHECKS['C26'] = dict(
+    level='proof',
+    text='Closed-form theorems in Coq for the PING handler and ping(): on any connection state that is not CLOSED and for every payload, a PING without ACK appends exactly one PING ACK with the identical payload and yields exactly one PingReceived; a PING ACK appends nothing and yields one PingAckReceived; nothing else in the state changes; ping() emits exactly one frame for 8-byte payloads and raises ValueError with the state untouched otherwise (length guard extracted from the source). Ping-heavy programs with several PINGs per receive_data call are compared with the model and judged by an order/payload oracle.',
+    design='7.C26', technique='Coq closed-form theorems over the connection model + generated table + differential correspondence')
+CHECKS['C23'] = dict(
+    level='proof',
+    text='Theorems in Coq for all integers: _add_frame_priority accepts exactly weight in 1..256 and no self-dependency (guards extracted from the source); the PriorityUpdated a peer reports equals the request with defaults 16/0/False (encode/decode round trip through the weight byte); a received PRIORITY frame on ANY stream id leaves the WHOLE connection state equal (c = c) in every state before close and yields exactly one PriorityUpdated or a protocol error for self-dependency; servers are refused. Priority-heavy programs are compared with the model on every stream / flow-control probe.',
+    design='7.C23', technique='Coq theorems (whole-state equality, lia over extracted guards) + differential correspondence')
+CHECKS['C19'] = dict(
+    level='proof',
+    text='Theorems in Coq: the generated connection table admits only GOAWAY in CLOSED and GOAWAY closes from every state (by computation); CLOSED is absorbing under every operation, hence for every history of API calls and received frames (induction, unbounded); every emitting / stream-opening API call (10 calls) raises and appends nothing on a closed connection; received frames handled through the state machine raise without appending; a received GOAWAY empties the pending output. Two refuted call patterns (acknowledge_received_data, naked CONTINUATION for a reset stream) are known findings with vm_compute witnesses replayed on the real code.',
+    design='7.C19', technique='Coq invariant by induction over histories + compositional per-handler provers + table computation + differential correspondence')
 NA_REASON = {}
 def main():
     checks = []
